@@ -9,6 +9,7 @@ package client_test
 // must bring g1, g2 and v1 down (the next pass is a minute away).
 
 import (
+	"github.com/nats-io/nats.go"
 	"testing"
 	"time"
 
@@ -93,5 +94,76 @@ func TestVerifC02SubtreeComesDown(t *testing.T) {
 		n2, _ := client.GetNodes(ncD, "all", "g2", "", false)
 		n3, _ := client.GetNodes(ncD, "all", "v1", "", false)
 		t.Errorf("after catch-up the downstream instance has g1 but not the rest of the upstream subtree: g2 present=%v, v1 present=%v (the next sync pass is 60 s away)", len(n2) > 0, len(n3) > 0)
+	}
+}
+
+// Scenario for finding D27 (C02, OPEN): a child deleted on the downstream instance while the link is down. After the
+// catch-up pass both instances must agree on it (the deletion is the newest write to its tombstone point, so it should
+// win on both sides). The catch-up lists only non-deleted children on both sides, takes the child for "missing
+// locally" and copies the upstream's live copy down again - the accepted deletion is reverted or the instances keep
+// disagreeing.
+func TestVerifC02DeleteWhileDown(t *testing.T) {
+	ncU, _, stopU, err := server.TestServer("2")
+	if err != nil {
+		t.Fatal("Error starting upstream test server: ", err)
+	}
+	defer stopU()
+	ncD, rootD, stopD, err := server.TestServer()
+	if err != nil {
+		t.Fatal("Error starting downstream test server: ", err)
+	}
+	defer stopD()
+
+	sync := client.Sync{ID: "sync-id", Parent: rootD.ID, Description: "sync to up",
+		URI: server.TestServerOptions2.NatsServer, Period: 1}
+	if err := client.SendNodeType(ncD, sync, "test"); err != nil {
+		t.Fatal("Error sending sync node: ", err)
+	}
+	v := data.NodeEdge{ID: "varA", Parent: rootD.ID, Type: data.NodeTypeVariable,
+		Points: data.Points{{Type: data.PointTypeDescription, Text: "varA"}}}
+	if err := client.SendNode(ncD, v, "test"); err != nil {
+		t.Fatal(err)
+	}
+	if !verifC02WaitFor(10*time.Second, func() bool {
+		nodes, err := client.GetNodes(ncU, rootD.ID, "varA", "", false)
+		return err == nil && len(nodes) > 0
+	}) {
+		t.Skip("varA never appeared upstream (link not established in this environment): scenario not reached")
+	}
+
+	// link down, delete varA downstream
+	if err := client.SendNodePoint(ncD, "sync-id", data.Point{Type: data.PointTypeDisabled, Value: 1, Origin: "test"}, true); err != nil {
+		t.Fatal(err)
+	}
+	time.Sleep(500 * time.Millisecond)
+	if err := client.SendEdgePoint(ncD, "varA", rootD.ID, data.Point{Type: data.PointTypeTombstone, Value: 1, Origin: "test"}, true); err != nil {
+		t.Fatal(err)
+	}
+	time.Sleep(200 * time.Millisecond)
+	if nodes, _ := client.GetNodes(ncU, rootD.ID, "varA", "", false); len(nodes) == 0 {
+		t.Skip("the deletion reached the upstream although the sync node is disabled: scenario not reached")
+	}
+
+	// link up: catch-up on reconnect and then every second
+	if err := client.SendNodePoint(ncD, "sync-id", data.Point{Type: data.PointTypeDisabled, Value: 0, Origin: "test"}, true); err != nil {
+		t.Fatal(err)
+	}
+	deleted := func(nc *nats.Conn) (bool, bool) {
+		nodes, err := client.GetNodes(nc, rootD.ID, "varA", "", true)
+		if err != nil || len(nodes) == 0 {
+			return false, false
+		}
+		ts, _ := nodes[0].IsTombstone()
+		return ts, true
+	}
+	ok := verifC02WaitFor(8*time.Second, func() bool {
+		dD, okD := deleted(ncD)
+		dU, okU := deleted(ncU)
+		return okD && okU && dD && dU
+	})
+	if !ok {
+		dD, _ := deleted(ncD)
+		dU, _ := deleted(ncU)
+		t.Errorf("a child deleted downstream while the link was down: 8 s after the link came back (sync period 1 s) it is deleted downstream=%v, upstream=%v; expected deleted on both (the deletion is the newest accepted write)", dD, dU)
 	}
 }
